@@ -59,7 +59,7 @@ def main():
                 "quick_cmd": f"./check {pid} --tier quick",
                 "thorough_cmd": f"./check {pid} --tier thorough",
                 "evidence_file": f"/verif/evidence/{pid}.json",
-                "replay_cmd_template": "cat {path}/replay_cmd.txt {path}/model.json",
+                "replay_cmd_template": "./bin/gosym replay {path}",
                 "engine": "gosym",
                 "level_claimed": {"category": "model_checking", "text": lt, "design_ref": f"DESIGN.md §7 {pid}"},
                 "level_note": ln + " Bounds, stubs, functions encoded, queries and solver time are in the evidence file.",
